@@ -36,10 +36,10 @@ var c19Lines = []string{
 }
 
 type c19Site struct {
-	Count   int    `json:"count"`
+	Count   int        `json:"count"`
 	Example core.Bytes `json:"example"`
-	Mode    string `json:"mode"`
-	Msg     string `json:"msg"`
+	Mode    string     `json:"mode"`
+	Msg     string     `json:"msg"`
 }
 
 type c19Out struct {
